@@ -23,7 +23,8 @@ RULE = (
     "AND, OR, NOT) over objects from the value grid x,y in {NULL,-7,0,1,3}, s in {NULL,'','a%b','axb'}, evaluator result vs SQLite's own "
     "three-valued answer; stmt: generated criteria trees (depth <=4) and SET clauses over 0-8 loaded objects (some expired) x UPDATE/DELETE x "
     "synchronize_session in {evaluate, fetch, auto}. Non-trivial: criterion has NOT over a NULL-able subexpression, % or / with a negative/zero "
-    "operand, IN/NOT IN with NULL, or a LIKE-family operator with %/_; distinct = canonical JSON"
+    "operand, IN/NOT IN with NULL, a LIKE-family operator with %/_, or the composite-key family (a third of stmt cases: table PRIMARY KEY (id, k), mapper "
+    "primary_key=[k, id], rows with mirrored key pairs); distinct = canonical JSON"
 )
 ASSUMPTIONS = [
     "live SQLite only; UPDATE..RETURNING is available so 'fetch' uses RETURNING, and is also run with RETURNING disabled on the dialect (pre-select path)",
@@ -54,8 +55,20 @@ def _family():
         y = Column(Integer)
         s = Column(String)
 
+    class T2(Base):
+        """same columns, composite primary key: the table declares PRIMARY KEY (id, k), the mapper lists it as (k, id); rows carry
+        mirrored key pairs, so an identity key built in the wrong column order names another object of the session"""
+
+        __tablename__ = "c43_t2"
+        id = Column(Integer, primary_key=True)
+        k = Column(Integer, primary_key=True)
+        x = Column(Integer)
+        y = Column(Integer)
+        s = Column(String)
+        __mapper_args__ = {"primary_key": [k, id]}
+
     reg.configure()
-    _state.update(T=T, Base=Base)
+    _state.update(T=T, T2=T2, Base=Base)
     return _state
 
 
@@ -155,7 +168,7 @@ def _has_wildcard_known(node):
     return False
 
 
-NONTRIVIAL = {"not-over-nullable", "moddiv-negzero", "in-null", "like-wildcard"}
+NONTRIVIAL = {"not-over-nullable", "moddiv-negzero", "in-null", "like-wildcard", "composite-pk-mapper-order-differs"}
 
 
 # ---------------------------------------------------------------- (1) evaluator grid vs SQLite
@@ -329,6 +342,7 @@ def _stmts(draw):
         "sync": draw(st.sampled_from(["evaluate", "fetch", "auto", "fetch_noreturning"])),
         "crit": draw(_crit),
         "set": [list(x) for x in draw(st.lists(_setclause, min_size=1, max_size=2, unique_by=lambda t: t[0]))],
+        "composite": draw(st.sampled_from([0, 0, 1])),
     }
 
 
@@ -348,9 +362,13 @@ def check_stmt(case, ctx):
 
     from vf.sautil import Capture, mem_engine
 
-    T = _family()["T"]
+    composite = bool(case.get("composite"))
+    T = _family()["T2" if composite else "T"]
+    tname = T.__tablename__
     feats = set()
     _features(case["crit"], feats)
+    if composite:
+        feats.add("composite-pk-mapper-order-differs")
     if _has_wildcard_known(case["crit"]) and not case.get("pinned") and case["sync"] in ("evaluate", "auto"):
         ctx.exclude("startswith/endswith with un-escaped LIKE wildcard under evaluate (known finding)")
         ctx.note(case, False, classes=["excluded"])
@@ -364,8 +382,12 @@ def check_stmt(case, ctx):
     cap = Capture(eng)
     sess = Session(eng)
     try:
+        n_rows = len(case["rows"])
         for i, (x, y, s) in enumerate(case["rows"]):
-            sess.add(T(id=i + 1, x=x, y=y, s=s))
+            if composite:
+                sess.add(T(id=i + 1, k=n_rows - i, x=x, y=y, s=s))  # (1, n), (2, n-1), .. (n, 1): mirrored pairs
+            else:
+                sess.add(T(id=i + 1, x=x, y=y, s=s))
         sess.commit()
         objs = sess.query(T).order_by(T.id).all()
         ids = [o.id for o in objs]
@@ -389,7 +411,7 @@ def check_stmt(case, ctx):
         else:
             stmt = delete(T).where(crit)
         sync = "fetch" if case["sync"] == "fetch_noreturning" else case["sync"]
-        before_rows = sess.connection().exec_driver_sql("select id, x, y, s from c43_t order by id").fetchall()
+        before_rows = sess.connection().exec_driver_sql(f"select id, x, y, s from {tname} order by id").fetchall()
         before_mem = {oid: dict(inspect(o).dict) for oid, o in zip(ids, objs)}
         cap.clear()
         raised = None
@@ -404,7 +426,7 @@ def check_stmt(case, ctx):
             sess.rollback()
             return
         dml = [r for r in cap.rows if r[0].lstrip().upper().startswith(("UPDATE", "DELETE"))]
-        after_rows = sess.connection().exec_driver_sql("select id, x, y, s from c43_t order by id").fetchall()
+        after_rows = sess.connection().exec_driver_sql(f"select id, x, y, s from {tname} order by id").fetchall()
         if raised is not None:
             if sync == "fetch":
                 raise Violation("C43/fetch/raised", f"synchronize_session='fetch' raised {type(raised).__name__}: {raised}")
